@@ -479,9 +479,12 @@ def fam_scrypt():
 
     if QUICK:
         grid = [(2, 1, 1), (4, 2, 1), (16, 1, 2), (2, 8, 1), (4, 1, 2), (16, 2, 1)]
-        grid = pick(r, grid, 5) + [r.choice([(2, 2, 2), (4, 8, 1), (8, 1, 1), (2, 3, 1)])]
+        grid = pick(r, grid, 4) + [r.choice([(2, 2, 2), (4, 8, 1), (8, 1, 1)])]
+        # block sizes that are not a power of two (BlockMix interleaves the 2r blocks: index arithmetic must not assume one)
+        grid += [(2, 3, 1), r.choice([(2, 5, 1), (4, 6, 1), (2, 7, 1), (4, 3, 2), (2, 9, 1)])]
     else:
         grid = [(N, r_, p) for N in (2, 4, 16) for r_ in (1, 2, 8) for p in (1, 2)] + [(64, 1, 1), (8, 3, 3), (32, 2, 1), (2, 1, 5), (128, 1, 1)]
+        grid += [(2, 3, 1), (2, 5, 1), (4, 6, 1), (2, 7, 2), (4, 9, 1), (2, 12, 1), (8, 5, 2), (2, 16, 1), (2, 11, 1)]
     for k, (N, r_, p) in enumerate(grid):
         num_keys = (1, 1, 2, 3)[k % 4]
         key_len = r.choice([1, 16, 31, 32, 33, 64, 65]) if num_keys == 1 else r.choice([1, 16, 24, 32, 33])
@@ -523,7 +526,7 @@ def pw_no_nul(r, n, style=None):
 
 def fam_bcrypt(inp):
     r = rng("c12/bcrypt")
-    n_eks = int(inp.get("bcrypt_values", 1 if QUICK else 4))
+    n_eks = int(inp.get("bcrypt_values", 2 if QUICK else 5))
 
     def one(pw, cost, salt, eks=False, text=None, note=""):
         arg = text if text is not None else pw
@@ -544,8 +547,8 @@ def fam_bcrypt(inp):
     # (a) values recomputed by TLC through EksBlowfish (cost 4: 33 key expansions of 521 Blowfish encryptions; the orchestrator cuts the
     #     chain into links that are checked separately)
     shapes = [(r.randrange(1, 20), "hi"), (72, "rnd"), (0, None), (71, "hi"), (r.randrange(20, 71), "rnd"), (55, "ascii"), (56, "rnd"), (1, "hi")]
-    if QUICK:
-        shapes = [r.choice(shapes)] + shapes
+    if QUICK:                # the longest password the function accepts (72 bytes: no room for the terminating zero) and one other shape
+        shapes = [(72, "rnd"), r.choice(shapes[:1] + shapes[2:])] + shapes
     for n, style in shapes[:n_eks]:
         one(pw_no_nul(r, n, style), 4, r.randbytes(16), eks=True)
     if not QUICK:
@@ -665,9 +668,43 @@ def fam_s2v():
              raised_at=raised_at[0] if exc != "none" else -1)
 
 
+def fam_s2vobj():
+    """histories on one _S2V object: update() and derive() interleaved (derive repeated, derive then more components)"""
+    r = rng("c12/s2vobj")
+    lens = [0, 1, 15, 16, 17, 32, 5]
+    hists = [["d", "d"], ["u", "d", "d"], ["u", "d", "u", "d"], ["d", "u", "d"], ["u", "u", "d", "u", "d", "d"]]
+    for _ in range(8 if QUICK else 60):
+        hists.append([r.choice("uud") for _ in range(r.randrange(2, 8))] + ["d"])
+    for h in hists:
+        for klen in ((r.choice([16, 24, 32]),) if QUICK else (16, 32)):
+            key = r.randbytes(klen)
+            o = KDF._S2V.new(key, ciphermod=AES)
+            events = []
+            for op in h:
+                if op == "u":
+                    data = rbytes(r, r.choice(lens))
+                    _, exc = run(lambda: o.update(data))
+                    events.append({"op": "update", "data": L(data), "out": [], "exc": exc})
+                else:
+                    res, exc = run(lambda: o.derive())
+                    events.append({"op": "derive", "data": [], "out": L(res), "exc": exc})
+            emit("s2vobj", 60 * len(h), key=L(key), events=events, exc="none")
+    # the component limit on one object: 127 accepted, the 128th refused and leaving the vector as it was
+    key = r.randbytes(16)
+    o = KDF._S2V.new(key, ciphermod=AES)
+    events = []
+    for i in range(129):
+        data = rbytes(r, r.choice([0, 1, 16]))
+        _, exc = run(lambda: o.update(data))
+        events.append({"op": "update", "data": L(data), "out": [], "exc": exc})
+    res, exc = run(lambda: o.derive())
+    events.append({"op": "derive", "data": [], "out": L(res), "exc": exc})
+    emit("s2vobj", 1200, key=L(key), events=events, exc="none")
+
+
 def main():
     inp = json.load(sys.stdin) if not sys.stdin.isatty() else {}
-    fams = inp.get("families") or ["pbkdf2", "pbkdf1", "hkdf", "sp108", "scrypt", "bcrypt", "s2v"]
+    fams = inp.get("families") or ["pbkdf2", "pbkdf1", "hkdf", "sp108", "scrypt", "bcrypt", "s2v", "s2vobj"]
     for f in fams:
         if f == "bcrypt":
             fam_bcrypt(inp)
